@@ -94,18 +94,39 @@ func VerifK24PrimitiveRoundTrip() {
 	q, err := crdt.NewPrimitive(raw, tk)
 	zzvsym.Assert(err == nil, "rebuild-no-error")
 	zzvsym.Assert(q.ValueType() == p.ValueType(), "primitive-type-round-trip")
-	zzvsym.Assert(q.Marshal() == p.Marshal(), "primitive-value-round-trip")
+	same := func(x, y *crdt.Primitive) bool {
+		if kind != 4 {
+			return x.Marshal() == y.Marshal()
+		}
+		// bytes: compared byte-wise (their JSON form is padded base64)
+		xb, yb := x.Value().([]byte), y.Value().([]byte)
+		if len(xb) != len(yb) {
+			return false
+		}
+		for i := range xb {
+			if xb[i] != yb[i] {
+				return false
+			}
+		}
+		return true
+	}
+	zzvsym.Assert(same(q, p), "primitive-value-round-trip")
 	// through the wire element
 	pb, err := toJSONElementSimple(p)
 	zzvsym.Assert(err == nil, "element-encode-no-error")
 	e, err := fromElement(pb)
 	zzvsym.Assert(err == nil, "element-decode-no-error")
 	if err == nil {
-		zzvsym.Assert(e.Marshal() == p.Marshal(), "element-round-trip-value")
+		ep, isPrim := e.(*crdt.Primitive)
+		zzvsym.Assert(isPrim, "element-round-trip-kind")
+		if isPrim {
+			zzvsym.Assert(ep.ValueType() == p.ValueType(), "element-round-trip-type")
+			zzvsym.Assert(same(ep, p), "element-round-trip-value")
+		}
 		zzvsym.Assert(e.CreatedAt().Compare(tk) == 0, "element-round-trip-ticket")
 	}
 	zzvsym.Reach("primitive")
-	zzvsym.Observe(p.Marshal())
+	zzvsym.Observe(int(p.ValueType()))
 }
 
 func vMaybeTicket(n string) *api.TimeTicket {
@@ -122,11 +143,20 @@ func vMaybeElement(n string) *api.JSONElementSimple {
 	if zzvsym.IntRange(n+"_nil", 0, 1) == 0 {
 		return nil
 	}
-	return &api.JSONElementSimple{
-		CreatedAt: vMaybeTicket(n + "_c"),
-		Type:      api.ValueType(zzvsym.Int32(n + "_type")),
-		Value:     zzvsym.Bytes(n+"_v", zzvsym.IntRange(n+"_vlen", 0, 9)),
+	t := api.ValueType(zzvsym.Int32(n + "_type"))
+	value := zzvsym.Bytes(n+"_v", zzvsym.IntRange(n+"_vlen", 0, 9))
+	switch t {
+	case api.ValueType_VALUE_TYPE_JSON_OBJECT, api.ValueType_VALUE_TYPE_JSON_ARRAY, api.ValueType_VALUE_TYPE_TREE:
+		// their payload is a nested protobuf message: the wire format is
+		// outside the encodable set (contract stub), only the nil payload is in
+		value = nil
+	case api.ValueType_VALUE_TYPE_DOUBLE, api.ValueType_VALUE_TYPE_DATE, api.ValueType_VALUE_TYPE_STRING:
+		// floats are never symbolic; Date divides by constants (a known
+		// bit-blasting stall); strings need concrete bytes: concrete
+		// payload of the same (symbolically chosen) length
+		value = make([]byte, len(value))
 	}
+	return &api.JSONElementSimple{CreatedAt: vMaybeTicket(n + "_c"), Type: t, Value: value}
 }
 
 // VerifK25DecoderRobust: structurally mutated change packs (nil members,
@@ -199,18 +229,37 @@ func VerifK25DecoderRobust() {
 		op = &api.Operation{Body: &api.Operation_Style_{Style: st}}
 	}
 	var id *api.ChangeID
-	switch zzvsym.IntRange("id", 0, 2) {
+	envelope := 0 // the envelope (id, checkpoint, nil change) varies independently of the operation
+	if kind <= 1 {
+		envelope = zzvsym.IntRange("envelope", 0, 5)
+	}
+	idKind, cpKind, nilChange := 1, 1, 0
+	switch envelope {
 	case 1:
-		id = &api.ChangeID{ClientSeq: zzvsym.Uint32("cs"), Lamport: zzvsym.Int64("lam"), ActorId: zzvsym.Bytes("ida", zzvsym.IntRange("idalen", 0, 1)*12)}
+		idKind = 0
+	case 2:
+		idKind = 2
+	case 3:
+		cpKind = 0
+	case 4:
+		nilChange = 1
+	case 5:
+		idKind = 3
+	}
+	switch idKind {
+	case 1:
+		id = &api.ChangeID{ClientSeq: zzvsym.Uint32("cs"), Lamport: zzvsym.Int64("lam"), ActorId: zzvsym.Bytes("ida", 12)}
+	case 3:
+		id = &api.ChangeID{ClientSeq: zzvsym.Uint32("cs"), Lamport: zzvsym.Int64("lam"), ActorId: zzvsym.Bytes("ida", zzvsym.IntRange("idalen", 0, 11))}
 	case 2:
 		id = &api.ChangeID{ActorId: zzvsym.Bytes("ida", 12), VersionVector: &api.VersionVector{Vector: map[string]int64{"not-base64!": 1}}}
 	}
 	var cp *api.Checkpoint
-	if zzvsym.IntRange("cp", 0, 1) == 1 {
+	if cpKind == 1 {
 		cp = &api.Checkpoint{ServerSeq: zzvsym.Int64("cps"), ClientSeq: zzvsym.Uint32("cpc")}
 	}
 	pack := &api.ChangePack{DocumentKey: "doc", Checkpoint: cp, Changes: []*api.Change{{Id: id, Operations: []*api.Operation{op}}}}
-	if zzvsym.IntRange("nilchange", 0, 1) == 1 {
+	if nilChange == 1 {
 		pack.Changes = append(pack.Changes, nil)
 	}
 	var err error
@@ -219,12 +268,17 @@ func VerifK25DecoderRobust() {
 	})
 	zzvsym.Reach("decoded")
 	zzvsym.Assert(!panicked, "change-pack-decoder-never-panics")
-	// the element decoder on its own (snapshot members use it as well)
-	panicked = zzvsym.Fails(func() {
+	zzvsym.Observe(err == nil)
+}
+
+// VerifK25ElementRobust: the element decoder on its own (snapshot members
+// use it as well).
+func VerifK25ElementRobust() {
+	panicked := zzvsym.Fails(func() {
 		_, _ = fromElement(vMaybeElement("solo"))
 	})
+	zzvsym.Reach("decoded")
 	zzvsym.Assert(!panicked, "element-decoder-never-panics")
-	zzvsym.Observe(err == nil)
 }
 
 // VerifK25BytesRobust: arbitrary byte buffers presented as stored values
@@ -241,7 +295,11 @@ func VerifK25BytesRobust() {
 		case 1:
 			_, _ = time.ActorIDFromBytes(buf)
 		case 2:
-			_, _ = crdt.ValueFromBytes(crdt.ValueType(zzvsym.Int32("vt")), buf)
+			vt := crdt.ValueType(zzvsym.Int32("vt"))
+			if vt == crdt.Double || vt == crdt.Date || vt == crdt.String {
+				buf = make([]byte, len(buf)) // see vMaybeElement
+			}
+			_, _ = crdt.ValueFromBytes(vt, buf)
 		case 3:
 			_, _ = crdt.CounterValueFromBytes(crdt.CounterType(zzvsym.Int("ct")), buf)
 		}
